@@ -6,21 +6,21 @@ TECH = "deterministic simulation with fault injection: zinoma's real main() on a
 
 CHECKS = {
  "C01": ("exploration", "Seeded search over schedules of one-shot runs (with failing / killed dependencies) and --watch sessions with edits placed inside builds: every script/service start must be preceded by readiness of every effective dependency; in watch mode no execution may be decided while the latest word the target's actor received from a dependency is 'Invalidated' (decisions and receipts are observable at the channel seam through hook H1). Sampling, not proof.", "§7 C01"),
- "C02": ("exploration", "Seeded search over invocation/edit histories against an independent reference model (own walker, own records): every observed skip must be justified by a record taken at the target's last successful completion and by the model's comparison (same file set, per file mtime-or-content, same command outputs).", "§7 C02"),
- "C03": ("exploration", "Same history engine on untouched trees, multi-project layouts, identical command text / relative paths in different project directories, other targets failing in the same invocation: a target with inputs, a definite model record and content-equal resources must not have its script started.", "§7 C03"),
+ "C02": ("exploration", "Seeded search over invocation/edit histories against an independent reference model (own walker, own records): every observed skip must be justified by a record taken at the target's last successful completion and by the model's comparison (same file set, per file mtime-or-content, same command outputs). Faults: EIO / short reads on zinoma's own file-system calls, and outcomes of the system calls made while a record is stored (write failing with ENOSPC / EIO, short or interrupted writes, open failing); files dated before 1970.", "§7 C02"),
+ "C03": ("exploration", "Same history engine on untouched trees, multi-project layouts, identical command text / relative paths in different project directories, other targets failing in the same invocation: a target with inputs, a definite model record and content-equal resources must not have its script started. Short and interrupted write(2) calls while records are stored are injected (no errors: records must be complete); builds that empty their own output directory lying among their inputs; imports and -p through symbolic links.", "§7 C03"),
  "C04": ("exploration", "Seeded search over schedules and graph shapes (deep chains, fan-in/fan-out beyond 2x the shipped queue capacity, 34-90 roots on one command line, very long target names, command resources printing more than a pipe buffer): the run must never reach a state with no runnable task and no enabled event before main returns (stall detection is exact in a one-thread simulation).", "§7 C04"),
- "C05": ("fault_enumeration", "For sampled scenarios and schedules: zinoma killed at EVERY scheduling decision index of the run, SIGINT at every (quick: every 2nd) index, every script outcome (exit!=0, signal, EAGAIN, a failing middle command that only `sh -e` notices), every strict prefix of each record (quick: 32+16 lengths; real torn writes also arise because crash points fall between the write() calls of the record), single-bit flips (tree unchanged / own input rewritten / declared output altered), every byte zeroed with an output altered, garbage and foreign records, the interruptions again followed by a revert of the edited inputs, and each failing script combined with an I/O error on zinoma's own n-th stat/unlink/open; each followed by a recovery invocation judged against the complete run R0 and the scripts' real exit statuses.", "§7 C05"),
+ "C05": ("fault_enumeration", "For sampled scenarios and schedules: zinoma killed at EVERY scheduling decision index of the run, SIGINT at every (quick: every 2nd) index, every script outcome (exit!=0, signal, EAGAIN, a failing middle command that only `sh -e` notices), every strict prefix of each record (quick: 32+16 lengths; real torn writes also arise because crash points fall between the write() calls of the record), single-bit flips (tree unchanged / own input rewritten / declared output altered), every byte zeroed with an output altered, garbage and foreign records, the interruptions again followed by a revert of the edited inputs, and each failing script combined with an I/O error on zinoma's own n-th stat/unlink/open, every write(2)/open made while records are stored failing with ENOSPC / EIO / EACCES or being short / interrupted (quick: ~24 evenly spaced writes), and a directory lying where the record should be; each followed by a recovery invocation judged against the complete run R0 and the scripts' real exit statuses.", "§7 C05"),
  "C06": ("exploration", "Seeded search over --watch sessions (populated and clean trees) with bursts of edits gated to land while idle, inside a chosen build, or back to back; version-stamped virtual scripts; at the final idle point outputs must equal the stamp of the final inputs and services must run an instance started from them.", "§7 C06"),
  "C07": ("exploration", "Seeded search over schedules x failing subsets injected through the fault plan (non-zero exit, death by signal, EAGAIN at spawn) in one-shot and --watch runs: non-zero exit naming a failed target, dependents never started / stay blocked, warning + still watching in watch mode, no stall.", "§7 C07"),
- "C08": ("exploration", "Seeded search over schedules with duplicate / double-spelled requests, shared dependencies and --clean T: counts of starts+skips per target and byte comparison of outsiders' state and outputs before/after.", "§7 C08"),
+ "C08": ("exploration", "Seeded search over schedules with duplicate / double-spelled requests, shared dependencies and --clean T: counts of starts+skips per target and byte comparison of outsiders' state and outputs before/after. Also: target names too long for a record to fit in a directory entry (nothing may be written under a shortened name: every other entry of a work directory counts as outsider state).", "§7 C08"),
  "C10": ("fault_enumeration", "For sampled scenarios (one-shot, watch, wide graphs) and schedules: the termination signal (SIGINT or SIGTERM; whether SIGTERM is handled follows the features /repo/Cargo.toml declares for the ctrlc crate) at every decision index (quick: 96 evenly spaced) and a failure of each build, with all scripts frozen from that instant: main must return (no stall), no build/service shell left running or unreaped, exit status as specified.", "§7 C10"),
  "C11": ("exploration", "Seeded search over service/build/aggregate mixes with the signal delivered only at idle, one-shot and --watch (restarts): keep-alive iff a service stands behind a root; dependency services outlive dependent builds; at most one live instance per service.", "§7 C11"),
- "C12": ("exploration", "Histories containing --clean / --clean T over trees decorated with non-matching files, nested directories and symlinks (to files, directories, dangling, pointing outside; also as the declared output path itself), `[]`/`['']` filters, overlapping or twice-declared paths: recursive tree snapshot after-before must equal the model's deletion set plus script effects; cleaned targets never skipped; zinoma killed at sampled decision indices inside --clean must have deleted nothing outside that set.", "§7 C12"),
+ "C12": ("exploration", "Histories containing --clean / --clean T over trees decorated with non-matching files, nested directories and symlinks (to files, directories, dangling, pointing outside; also as the declared output path itself), `[]`/`['']` filters, overlapping or twice-declared paths: recursive tree snapshot after-before must equal the model's deletion set plus script effects; cleaned targets never skipped; zinoma killed at sampled decision indices inside --clean must have deleted nothing outside that set. Declared output paths also spelled through links (`link/`, `link/.`, `link/inner`), failing builds inside `--clean T` invocations, zinoma killed at sampled decision indices inside `--clean`.", "§7 C12"),
  "C13": ("exploration", "History engine on producer/consumer layouts across projects (shared output directories told apart by extension filters, identical command texts): the consumer's decision must equal the model's decision with the producer's output resources appended, both directions.", "§7 C13"),
  "C14": ("exploration", "Arrangements of project files (name clashes, cycles, self-imports, wrong import keys) each executed under 8 seeded hash orders: no panic/abort; same verdict and same started scripts for every hash order. Only the determinism + no-abort half of C14; totality over byte strings and schema strictness are not covered.", "§7 C14"),
  "C16": ("exploration", "--watch sessions with one burst per idle point: irrelevant changes (other extensions, .zinoma incl. zinoma's own state writes, editor temporaries), hostile names (invalid UTF-8, newline, dots, names merely containing `.zinoma`), directories declared through `..` and links, directory touches, path-less rescan events, a failing first run with an input saved meanwhile, relevant changes; the documented relevance rule re-implemented: irrelevant bursts cause no evaluation, relevant ones always do, the session becomes idle again.", "§7 C16"),
- "C17": ("exploration", "Rendezvous-gated virtual scripts on antichains of builds and services (members requested directly, reached as dependencies, or through one aggregate holding a service): completion reachable iff all members overlap; an unstarted member with ready dependencies at idle is the violation.", "§7 C17"),
- "C18": ("exploration", "History engine with different requested targets, entry projects (-p root / imported project's own directory), --clean T, failing other targets, edits incl. files under nested .zinoma directories: each decision must equal the model's decision from that target's own resources and own record.", "§7 C18"),
+ "C17": ("exploration", "Rendezvous-gated virtual scripts on antichains of builds and services (members requested directly, reached as dependencies, or through one aggregate holding a service): completion reachable iff all members overlap; an unstarted member with ready dependencies at idle is the violation. Cases with gated command captures are also run twice over the untouched tree (records exist: the up-to-date checks wait for the commands).", "§7 C17"),
+ "C18": ("exploration", "History engine with different requested targets, entry projects (-p root / imported project's own directory), --clean T, failing other targets, edits incl. files under nested .zinoma directories: each decision must equal the model's decision from that target's own resources and own record. Imports and -p through symbolic links; short / interrupted writes while records are stored.", "§7 C18"),
  "C20": ("exploration", "Metamorphic pairs (aggregate vs its dependencies) on two copies of one tree, each side under its own seeded schedule: same started/skipped sets, exit class and keep-alive.", "§7 C20"),
 }
 
